@@ -15,3 +15,34 @@ Fixpoint hex (s : string) : bytes :=
   end.
 
 Notation H := hex (only parsing).
+
+(* Several byte strings in one literal, separated by commas: every string
+   literal has a fixed elaboration cost of a few milliseconds, so a case should
+   contain few of them.  [hexs ""] is the empty list; an empty field is an
+   empty byte string (so a list holding only the empty string cannot be
+   written - callers prefix such fields, see [tagged_hexs]). *)
+Fixpoint hexs_aux (s : string) (cur : bytes) : list bytes :=
+  match s with
+  | EmptyString => [rev cur]
+  | String a r =>
+      if Ascii.eqb a ","%char then rev cur :: hexs_aux r []
+      else match r with
+           | String b r' => hexs_aux r' ((16 * hexval a + hexval b) :: cur)
+           | EmptyString => [rev cur]
+           end
+  end.
+
+Definition hexs (s : string) : list bytes :=
+  match s with EmptyString => [] | _ => hexs_aux s [] end.
+
+(* fields whose first byte is a small number (a tag) *)
+Definition tagged_hexs (s : string) : list (nat * bytes) :=
+  map (fun l => match l with t :: r => (N.to_nat t, r) | [] => (0%nat, []) end) (hexs s).
+
+Notation HS := hexs (only parsing).
+Notation TS := tagged_hexs (only parsing).
+
+(* a list of byte strings, each field prefixed with a dummy tag byte so that
+   empty strings and the list holding only the empty string can be written *)
+Definition list_hexs (s : string) : list bytes := map snd (tagged_hexs s).
+Notation LS := list_hexs (only parsing).
